@@ -285,11 +285,13 @@ pub fn diff_summary(a: &ChangeList, b: &ChangeList) -> String {
 pub struct MockRelayer {
     pub events: Arc<BTreeMap<u64, Vec<Event>>>,
     pub enabled: bool,
+    /// reading the events of this DA height fails (0 = never)
+    pub fail_at: u64,
 }
 
 impl MockRelayer {
     pub fn new(u: &Universe) -> Self {
-        MockRelayer { events: Arc::new(u.relayer.clone()), enabled: true }
+        MockRelayer { events: Arc::new(u.relayer.clone()), enabled: true, fail_at: 0 }
     }
 }
 
@@ -298,6 +300,9 @@ impl RelayerPort for MockRelayer {
         self.enabled
     }
     fn get_events(&self, da_height: &DaBlockHeight) -> anyhow::Result<Vec<Event>> {
+        if self.fail_at != 0 && da_height.0 == self.fail_at {
+            anyhow::bail!("relayer database read failed at DA height {}", da_height.0);
+        }
         Ok(self.events.get(&da_height.0).cloned().unwrap_or_default())
     }
 }
@@ -325,6 +330,13 @@ pub fn executor(u: &Universe, db: ChainDb) -> Exec {
 
 pub fn executor_with(u: &Universe, db: ChainDb, utxo_validation: bool) -> Exec {
     Executor::native(db, MockRelayer::new(u), exec_config_utxo(utxo_validation))
+}
+
+/// Executor whose relayer fails to read the events of DA height `fail_at` (0 = never fails).
+pub fn executor_full(u: &Universe, db: ChainDb, utxo_validation: bool, fail_at: u64) -> Exec {
+    let mut r = MockRelayer::new(u);
+    r.fail_at = fail_at;
+    Executor::native(db, r, exec_config_utxo(utxo_validation))
 }
 
 // ---------------------------------------------------------------------------
@@ -461,9 +473,11 @@ pub fn produce(
             let v: Vec<MaybeCheckedTransaction> = txs
                 .into_iter()
                 .map(|tx| {
-                    // the pool checked the transaction when it arrived: at this height, or at an earlier one
+                    // the pool checked the transaction when it arrived: at this height, or at an earlier one,
+                    // under the consensus parameters it knew then (version 0, the genesis parameters). After a
+                    // parameters upgrade the executor must re-check such a transaction itself.
                     match tx.clone().into_checked(h, &u.cp).or_else(|_| tx.clone().into_checked(BlockHeight::new(1), &u.cp)) {
-                        Ok(c) => MaybeCheckedTransaction::CheckedTransaction(CheckedTransaction::from(c), header.consensus_parameters_version),
+                        Ok(c) => MaybeCheckedTransaction::CheckedTransaction(CheckedTransaction::from(c), 0),
                         Err(_) => MaybeCheckedTransaction::Transaction(tx),
                     }
                 })
